@@ -39,7 +39,8 @@ LEVEL_TEXT = (
     "Static decision of structural clauses of C03 on /repo's current source: (R3.1) priority order - in the matcher's "
     "recursive search the static transition is tried, and its result returned, before the loop over the dynamic "
     "transitions, which visits State.dynamic in list order; StateMachineMatcher.update sorts every state's dynamic transitions ascending by the rule part's weight "
-    "(stable list sort, every state visited); MapAdapter.match calls Map.update before the matcher on every path, Map.update "
+    "(stable list sort; every state visited: the traversal - recursion, generator or work list - starts at the root, feeds itself with the static and the "
+    "dynamic successors and skips none that has transitions below it); MapAdapter.match calls Map.update before the matcher on every path, Map.update "
     "reaches the matcher's update whenever _remap is set and Map.add sets _remap after adding; the converters' class-level "
     "weights, resolved through the MRO, satisfy int/float < string/default < path; the Weighting of a part counts its literal "
     "pieces negatively and carries the weights of the converters obtained from get_converter; (R3.2) 405 bookkeeping - the "
@@ -76,7 +77,7 @@ ASSUMPTIONS = [
     "a helper is taken to construct a Weighting / RulePart for its caller only if it is straight-line code that neither rebinds nor mutates its parameters; every construction in it then counts as one over the call's arguments",
     "a helper called for one candidate rule (closure of match(), method through self, module function) is executed as part of the rule loop only if it has no loop / try / with; anything else is exit 2",
     "R3.3: along a path through the NoMatch handler the attributes of the caught exception keep their values (no assignment to them in the handler: checked); a condition that mentions have_match_for in a form whose meaning is not 'is it empty' is exit 2",
-    "the traversal in StateMachineMatcher.update is judged by the successor states it feeds itself with; conditions under which it skips a successor are not examined",
+    "the traversal in StateMachineMatcher.update is judged by the successor states it feeds itself with; a condition under which it skips a successor is accepted only if it fails solely for states whose .static and .dynamic are both empty (walked over the valuations of those two atoms, every other atom open)",
     "`self.merge_slashes` of the matcher is the map-level setting (it is not assigned inside match(); checked)",
 ]
 
@@ -716,6 +717,82 @@ def _state_generator(ctx: Ctx, fi: FuncInfo, F: ast.AST, p: str) -> tuple[ast.AS
     return None
 
 
+def _descent_gaps(fi: FuncInfo, hr: HelperResolver, feeds: list[tuple[ast.AST, ast.AST, StateFlow, set[str]]], start_at: ast.AST | None) -> list[str]:
+    """conditions under which the traversal skips a successor although there is something below it.  Two questions per
+    kind of successor (static / dynamic), each decided by walking every path under the valuations that matter:
+    (1) inside the loop over the successors, is every successor whose .static or .dynamic is non-empty handed on?
+    (2) is that loop (or the statement that hands all of them on at once) reached on every path of a traversal step on
+    which the state has successors of that kind?  A guard that only skips states without any transitions is harmless."""
+    gaps: list[str] = []
+    for kind, attr in (("S", "static"), ("D", "dynamic")):
+        for scope in {id(f[1]): f[1] for f in feeds if kind in f[3]}.values():
+            cfg = cfg_of(fi) if scope is fi.node else hr.cfg(scope)
+            feeders: list[Node] = []
+            x = ""
+            for site, sc, flow, tags in feeds:
+                if sc is not scope or kind not in tags:
+                    continue
+                x = flow.x
+                node = cfg.node_of(site)
+                if node is None:
+                    raise AnalysisError(f"{fi.fq}: no CFG node for `{norm(site)[:50]}`")
+                L = astq.enclosing(site, (ast.For,))
+                succ_names: list[str] = []
+                if L is not None and _inside(L, scope):
+                    env: dict[str, t.Any] = {}
+                    flow.bind(env, L.target, flow.elems(flow.ev(L.iter, flow.env_at(L, scope))))
+                    succ_names = [nm for nm, v in env.items() if flat(v) & {"S", "D"}]
+                if not succ_names:
+                    feeders.append(node)
+                    continue
+                head = cfg.by_ast.get(id(L), [None])[0]
+                body = cfg.succ(head, "T") if head is not None else []
+                if head is None or len(body) != 1:
+                    raise AnalysisError(f"{fi.fq}: no CFG node for the loop over the successors")
+                feeders.append(head)
+                # (1) per successor
+                for dyn, stat in ((True, False), (False, True), (True, True)):
+                    def decide(leaf: ast.AST, dyn: bool = dyn, stat: bool = stat) -> bool | None:
+                        for nm in succ_names:
+                            for a, v in (("dynamic", dyn), ("static", stat)):
+                                pol = truthy_polarity(leaf, f"{nm}.{a}")
+                                if pol is not None:
+                                    return pol == v
+                        return None
+
+                    for ex in Walker(cfg, decide).run(body[0], {}):
+                        upto = ex.passed[: next((i for i, q in enumerate(ex.passed) if q is head), len(ex.passed))]
+                        if ex.kind == "loop" and head not in ex.passed and ex.node is not head:
+                            continue  # cut inside a nested loop: a prefix of paths that are walked anyway
+                        if node not in upto:
+                            gaps.append(f"a successor with {'non-empty' if dyn else 'empty'} .dynamic and {'non-empty' if stat else 'empty'} .static is not descended into: " + cfg.fmt_path(upto)[:300])
+                            break
+                    if gaps:
+                        break
+            if not feeders:
+                continue
+            # (2) per traversal step
+            start = cfg.node_of(start_at) if start_at is not None and _inside(start_at, scope) else cfg.entry
+            loop = astq.enclosing(start_at, (ast.While, ast.For)) if start_at is not None and _inside(start_at, scope) else None
+            stop = cfg.by_ast.get(id(loop), [None])[0] if loop is not None else None
+            if start is None:
+                raise AnalysisError(f"{fi.fq}: no CFG node for the start of a traversal step")
+
+            def has(leaf: ast.AST) -> bool | None:
+                pol = truthy_polarity(leaf, f"{x}.{attr}")
+                return None if pol is None else pol
+
+            for ex in Walker(cfg, has).run(start, {}):
+                cut = next((i for i, q in enumerate(ex.passed) if q is stop and i > 0), len(ex.passed))
+                upto = ex.passed[:cut]
+                if ex.kind == "loop" and cut == len(ex.passed) and ex.node is not stop:
+                    continue
+                if not any(q in upto for q in feeders):
+                    gaps.append(f"with {x}.{attr} non-empty a traversal step can end without handing the {attr} successors on: " + cfg.fmt_path(upto)[:300])
+                    break
+    return gaps
+
+
 def _r31_sort(ctx: Ctx, m: _Matcher) -> None:
     fi = m.update
     idx, width = _part_index_in_dynamic(ctx, m)
@@ -790,18 +867,24 @@ def _r31_sort(ctx: Ctx, m: _Matcher) -> None:
         flow = StateFlow(p, idx, width, is_root, F)
         fed: set[str] = set()
         seeds: set[str] = set()
+        feeds: list[tuple[ast.AST, ast.AST, StateFlow, set[str]]] = []  # (site, function it is in, flow of that function, successor kinds fed)
+        start_at: ast.AST | None = None  # work list: the statement that takes the next state; the traversal step starts there
         how = ""
         params = [a.arg for a in F.args.args]
         if F is not fi.node and p in params:
             pos = params.index(p) - (1 if params and params[0] in ("self", "cls") and p != params[0] else 0)
             how = f"{F.name} calls itself"
             for k in astq.calls(F, nested=False):
+                tags: set[str] | None = None
                 if runs(k, F):
                     a0 = astq.arg_or_kw(k, pos, p)
                     if a0 is not None:
-                        fed |= flat(flow.ev(a0, flow.env_at(k, F)))
+                        tags = flat(flow.ev(a0, flow.env_at(k, F)))
                 elif isinstance(k.func, ast.Name) and k.func.id == "map" and len(k.args) == 2 and astq.is_name(k.args[0], F.name):
-                    fed |= flat(flow.elems(flow.ev(k.args[1], flow.env_at(k, F))))
+                    tags = flat(flow.elems(flow.ev(k.args[1], flow.env_at(k, F))))
+                if tags is not None:
+                    fed |= tags
+                    feeds.append((k, F, flow, tags))
             for k in astq.calls(fi.node, nested=False):
                 if runs(k, F):
                     a0 = astq.arg_or_kw(k, pos, p)
@@ -816,7 +899,9 @@ def _r31_sort(ctx: Ctx, m: _Matcher) -> None:
                 if (isinstance(k.func, ast.Name) and k.func.id == G.name) or (isinstance(k.func, ast.Attribute) and astq.is_name(k.func.value, "self") and k.func.attr == G.name):  # type: ignore[attr-defined]
                     a0 = astq.arg_or_kw(k, gpos, q)
                     if a0 is not None:
-                        fed |= flat(gflow.ev(a0, gflow.env_at(k, G)))
+                        tags = flat(gflow.ev(a0, gflow.env_at(k, G)))
+                        fed |= tags
+                        feeds.append((k, G, gflow, tags))
             a0 = astq.arg_or_kw(site_call, gpos, q)
             if a0 is not None:
                 seeds |= flat(flow.ev(a0, {}))
@@ -828,13 +913,16 @@ def _r31_sort(ctx: Ctx, m: _Matcher) -> None:
                 raise AnalysisError(f"{fi.fq}: `{p}` is neither the parameter of a per-state helper nor taken from a work list (traversal shape not recognised)")
             wl = pops[0].func.value.id  # type: ignore[attr-defined]
             how = f"work list `{wl}`"
+            start_at = pops[0]
             for st, v in astq.assigns_to(F, wl):
                 if v is None:
                     continue
                 if astq.enclosing(st, (ast.While, ast.For)) is None:
                     seeds |= flat(flow.elems(flow.ev(v, {})))
                 else:
-                    fed |= flat(flow.elems(flow.ev(v, flow.env_at(st, F))))
+                    tags = flat(flow.elems(flow.ev(v, flow.env_at(st, F))))
+                    fed |= tags
+                    feeds.append((st, F, flow, tags))
             for k in astq.calls(F, nested=False):
                 if isinstance(k.func, ast.Attribute) and astq.is_name(k.func.value, wl) and k.args:
                     tags = None
@@ -847,15 +935,25 @@ def _r31_sort(ctx: Ctx, m: _Matcher) -> None:
                             seeds |= tags
                         else:
                             fed |= tags
+                            feeds.append((k, F, flow, tags))
             for x in walk_no_nested(F):
                 if isinstance(x, ast.AugAssign) and astq.is_name(x.target, wl) and isinstance(x.op, ast.Add):
-                    fed |= flat(flow.elems(flow.ev(x.value, flow.env_at(x, F))))
+                    tags = flat(flow.elems(flow.ev(x.value, flow.env_at(x, F))))
+                    fed |= tags
+                    feeds.append((x, F, flow, tags))
         into_static, into_dynamic, from_root = "S" in fed, "D" in fed, "root" in seeds
         ctx.ob(
             "R3.1", "the sort visits every state of the machine", into_static and into_dynamic and from_root,
             f"{how}: fed with the values of {p}.static: {into_static}, with the targets of {p}.dynamic: {into_dynamic}; started at self._root: {from_root}",
             fi, F if F is not fi.node else c, "sort traversal covers static and dynamic successors from the root",
         )
+        if into_static and into_dynamic:
+            gaps = _descent_gaps(fi, hr, feeds, start_at)
+            ctx.ob(
+                "R3.1", "the traversal descends into every successor that has transitions of its own", not gaps,
+                f"{how}: on every path of a traversal step the static and the dynamic successors are fed - for each successor, or at least for each one whose .static / .dynamic is non-empty" if not gaps else "; ".join(gaps[:2]),
+                fi, feeds[0][0] if feeds else c, "sort traversal skips no successor with transitions below it",
+            )
 
 
 def _receiver(fi: FuncInfo, call: ast.Call) -> str:
